@@ -5,6 +5,7 @@ import collections
 
 import ber
 
+import codec as C
 import drive
 import gen
 from codec import sansldap
@@ -86,7 +87,7 @@ def run(ctx):
     ints = int_grid(ctx)
     for v in ints:
         evaluations += 1
-        enc = A._pack_asn1_integer(v)
+        enc = C.pack_integer(v)
         want = min_twos(v)
         hist["int:" + ("neg" if v < 0 else "pos") + f":len{min(len(want), 9)}"] += 1
         if enc[2:] != want or enc[0] != 2 or enc[1] != len(want):
@@ -139,8 +140,8 @@ def run(ctx):
             violations.append({"key": None, "what": f"public INTEGER/ENUMERATED read-back raised {type(e).__name__}", "value": str(v), "hex": data.hex()})
     for v in ints[:: max(1, len(ints) // ctx.scale(1500, 20000))]:
         reqs.append({"op": "int_pack", "v": v})
-        reqs.append({"op": "int_read", "hex": A._pack_asn1_integer(v).hex() + "aa"})
-    samples.append({"int_write": str(ints[len(ints) // 3]), "hex": A._pack_asn1_integer(ints[len(ints) // 3]).hex()})
+        reqs.append({"op": "int_read", "hex": C.pack_integer(v).hex() + "aa"})
+    samples.append({"int_write": str(ints[len(ints) // 3]), "hex": C.pack_integer(ints[len(ints) // 3]).hex()})
 
     # ---- arbitrary content octets (minimal or padded)
     for _ in range(ctx.scale(3000, 100000)):
@@ -175,7 +176,7 @@ def run(ctx):
     for (cls, cons, num) in tg:
         for n in rng.sample(ls, ctx.scale(3, 12)) + [0, 127, 128]:
             evaluations += 1
-            hdr = A._pack_asn1(TagClass(cls), cons, num, FakeData(n))
+            hdr = C.pack_tlv(cls, cons, num, FakeData(n))
             readable = not (cls == 0 and num > 36)
             hist[f"hdr:tagoctets{1 if num < 31 else 1 + (num.bit_length() + 6) // 7}:lenoctets{1 if n < 128 else 1 + (n.bit_length() + 7) // 8}"] += 1
             try:
@@ -196,7 +197,7 @@ def run(ctx):
             if rng.random() < ctx.scale(0.25, 0.5):
                 reqs.append({"op": "hdr_pack", "cls": cls, "cons": cons, "num": num, "len": n})
                 reqs.append({"op": "hdr_read", "hex": hdr.hex() + "5566"})
-    samples.append({"hdr_pack": [2, True, 1024, 70000], "hex": A._pack_asn1(TagClass(2), True, 1024, FakeData(70000)).hex()})
+    samples.append({"hdr_pack": [2, True, 1024, 70000], "hex": C.pack_tlv(2, True, 1024, FakeData(70000)).hex()})
 
     # ---- lenient length forms and arbitrary bytes through the header reader (model vs impl)
     for _ in range(ctx.scale(2000, 50000)):
@@ -238,7 +239,7 @@ def run(ctx):
         distinct.add(("octets", len(c), b))
         if len(c) < 400 and rng.random() < 0.3:
             reqs.append({"op": "octets_pack", "hex": c.hex()})
-            reqs.append({"op": "octets_read", "hex": A._pack_asn1_octet_string(c).hex() + "0102"})
+            reqs.append({"op": "octets_read", "hex": C.pack_octets(c).hex() + "0102"})
             reqs.append({"op": "bool_pack", "v": b})
     for content in (b"", b"\x00", b"\x01", b"\xff", b"\x00\x00", b"\x80"):
         reqs.append({"op": "bool_read", "hex": (bytes([1, len(content)]) + content).hex()})
